@@ -6,5 +6,5 @@ HERE="$(cd "$(dirname "$0")" && pwd)"
 T="$(mktemp -d /tmp/st-kvtorn-build-XXXXXX)" || exit 2
 trap 'rm -rf "$T"' EXIT
 g++ -std=c++17 -O1 -g -I"$INC" "$HERE/replay.cpp" -o "$T/replay" -lssl -lcrypto -lpthread || exit 2
-"$T/replay"
+timeout 60 "$T/replay"
 exit $?
